@@ -254,3 +254,26 @@ def sany(module: str) -> tuple[bool, str]:
     out = p.stdout + p.stderr
     ok = p.returncode == 0 and "Semantic errors" not in out and "*** Errors" not in out and "Fatal" not in out and "Parse Error" not in out
     return ok, out
+
+
+def apalache_inductive(module_path: str, init: str, ind_init: str, ind_inv: str, implied: list[str], timeout: int = 600) -> dict:
+    """Discharge an inductive invariant with Apalache: Init => IndInv, IndInv /\\ Next => IndInv', IndInv => each implied property."""
+    out_dir = scratch("apa")
+    res = {"module": module_path, "obligations": [], "wall_s": 0.0}
+    t0 = time.time()
+    jobs = [("init-implies-invariant", ["--init=" + init, "--inv=" + ind_inv, "--length=0"]),
+            ("invariant-is-inductive", ["--init=" + ind_init, "--inv=" + ind_inv, "--length=1"])]
+    jobs += [("invariant-implies-" + p, ["--init=" + ind_init, "--inv=" + p, "--length=0"]) for p in implied]
+    try:
+        for name, args in jobs:
+            p = subprocess.run(["apalache-mc", "check", *args, "--out-dir=" + str(out_dir), Path(module_path).name],
+                               cwd=str(Path(module_path).parent), capture_output=True, text=True, timeout=timeout)
+            ok = "EXITCODE: OK" in p.stdout
+            res["obligations"].append({"name": name, "ok": ok})
+            if not ok:
+                tail = "\n".join(p.stdout.strip().splitlines()[-12:])
+                raise Machinery(f"Apalache did not discharge {name} for {module_path}:\n{tail}")
+    finally:
+        shutil.rmtree(out_dir, ignore_errors=True)
+        res["wall_s"] = round(time.time() - t0, 1)
+    return res
